@@ -255,6 +255,30 @@ func run(c Case, o *vt.Obs) *vt.Failure {
 				}
 				return vt.Failf(prop+"/serializable-read-not-a-prefix", i, "serializable range via replica %d (applied %d): the answer is not the state after the applied prefix: %v", op.Client, applied, cerr)
 			}
+			// the streamed variant of the same read (KV.IterateRange -> ActiveTable.Iterator) obeys the same rule
+			if r.RangeEnd != nil && !op.Busy {
+				seq, err := t.Iterator(ctx, r)
+				if err != nil {
+					return vt.Failf(prop+"/read-error", i, "iterator: %v", err)
+				}
+				var chunks []*regattapb.ResponseOp_Range
+				seq(func(x *regattapb.ResponseOp_Range) bool { chunks = append(chunks, x); return true })
+				merged, merr := tlog.MergeChunks(chunks)
+				if merr != nil {
+					return vt.Failf(prop+"/read-error", i, "iterator: %v", merr)
+				}
+				at2 := cl.Applied[op.Client] // a linearizable read has brought the replica up to date meanwhile
+				if r.Linearizable {
+					at2 = commit
+				}
+				want2 := states[at2].Read(&regattapb.RequestOp_Range{Key: r.Key, RangeEnd: r.RangeEnd, Limit: r.Limit, KeysOnly: r.KeysOnly, CountOnly: r.CountOnly})
+				if cerr := model.CheckRangeResponse(want2, merged, false); cerr != nil {
+					if r.Linearizable {
+						return vt.Failf(prop+"/linearizable-read-stale", i, "linearizable STREAMED range via replica %d (commit %d) does not reflect all acknowledged writes: %v", op.Client, commit, cerr)
+					}
+					return vt.Failf(prop+"/serializable-read-not-a-prefix", i, "serializable streamed range via replica %d (applied %d): %v", op.Client, at2, cerr)
+				}
+			}
 			if commit > applied {
 				laggingRead = true
 			}
